@@ -99,7 +99,7 @@ def sim_sources():
     return [os.path.join(SIM, f) for f in sorted(os.listdir(SIM)) if f.endswith((".c", ".h"))]
 
 
-UBSAN = "bounds,null,object-size,pointer-overflow,vla-bound,nonnull-attribute,returns-nonnull-attribute,unreachable,return"
+UBSAN = "bounds,null,object-size,vla-bound,nonnull-attribute,returns-nonnull-attribute,unreachable,return"
 
 FLAVOURS = {
     # name: (cc, cflags for janet, cflags for sim objects, ldflags)
